@@ -9,7 +9,7 @@ From Coq Require Import String.
 From Coq Require Import List NArith ZArith Arith.
 Import ListNotations.
 From YP Require Import Base.Str Term.Term Unify.Unify Unify.Mgu Lang.Ast Lang.Lexer Lang.Cst Lang.Parser Lang.Unquote Lang.Literals Lang.Front
-  Comp.IR Comp.CompileBody Sem.Machine Engine.GetValue Lang.Denote Lang.Utf8 Lang.FileEntry.
+  Comp.IR Comp.CompileBody Sem.Machine Engine.GetValue Lang.Denote Lang.Utf8 Lang.FileEntry Cli.Cli.
 
 (* quote s = ' s ' with \' for every quote in s.  For every text without backslash -- quotes, line
    breaks, any code point -- it is lexed as the single token STRING and unquoted back to s. *)
@@ -159,6 +159,11 @@ Theorem C16_file_encoding_injective : forall s t,
   forallb is_scalar s = true -> forallb is_scalar t = true -> utf8_encode s = utf8_encode t -> s = t.
 Proof. exact utf8_encode_injective. Qed.
 Print Assumptions C16_file_encoding_injective.
+
+(* the command line reads such a file / standard input as that text (RText s of the command-line model of C19) *)
+Theorem C16_cli_reads_text : forall s, forallb is_scalar s = true -> rd_of_bytes (utf8_encode s) = Cli.RText s.
+Proof. exact cli_reads_text. Qed.
+Print Assumptions C16_cli_reads_text.
 
 Theorem C16_file_ascii_bytes : forall s b, In b (utf8_encode s) -> (b < 128)%N -> In b s.
 Proof. exact utf8_ascii_bytes_are_characters. Qed.
